@@ -40,7 +40,10 @@ impl Tier {
 
 pub struct Ctx {
     pub prop: String,
+    /// tier that selects the catalogs
     pub tier: Tier,
+    /// tier named on the command line (what the evidence reports)
+    pub label: Tier,
     pub seed: u64,
     pub replay: Option<PathBuf>,
     pub start: Instant,
@@ -48,6 +51,14 @@ pub struct Ctx {
 }
 
 /// Deterministic 64-bit digest (SipHash with fixed keys).
+impl Ctx {
+    /// The thorough tier was asked for on the command line (extended sweeps of the checks whose quick tier
+    /// already runs the complete catalog).
+    pub fn deep(&self) -> bool {
+        self.label == Tier::Thorough
+    }
+}
+
 pub fn digest<T: Hash>(t: &T) -> u64 {
     #[allow(deprecated)]
     let mut h = std::hash::SipHasher::new_with_keys(0x5eed, 0xfeed);
@@ -182,7 +193,9 @@ pub fn finish(ctx: &Ctx, report: Report, mut ev: Evidence) -> i32 {
     let known = load_known(&ctx.prop);
     let mut new_violations = 0u64;
     let mut known_hits = 0u64;
-    let replay_dir = format!("{}/replays", VERIF_DIR);
+    // MC_OUT_DIR: development runs write their replays and evidence elsewhere
+    let out_dir = std::env::var("MC_OUT_DIR").unwrap_or_else(|_| VERIF_DIR.to_string());
+    let replay_dir = format!("{}/replays", out_dir);
     let _ = std::fs::create_dir_all(&replay_dir);
     let mut viol_list = Vec::new();
     for v in report.violations.values() {
@@ -221,7 +234,7 @@ pub fn finish(ctx: &Ctx, report: Report, mut ev: Evidence) -> i32 {
     let wall = ctx.start.elapsed().as_secs_f64();
     let doc = json!({
         "property_id": ctx.prop,
-        "tier": ctx.tier.as_str(),
+        "tier": ctx.label.as_str(),
         "seed": ctx.seed,
         "level": ev.level,
         "coverage": Value::Object(ev.coverage),
@@ -229,7 +242,7 @@ pub fn finish(ctx: &Ctx, report: Report, mut ev: Evidence) -> i32 {
         "wall_s": wall,
         "violations": new_violations,
     });
-    let evdir = format!("{}/evidence", VERIF_DIR);
+    let evdir = format!("{}/evidence", out_dir);
     let _ = std::fs::create_dir_all(&evdir);
     let evpath = format!("{}/{}.json", evdir, ctx.prop);
     if ctx.replay.is_none() {
@@ -241,7 +254,7 @@ pub fn finish(ctx: &Ctx, report: Report, mut ev: Evidence) -> i32 {
     println!(
         "{} tier={} wall={:.1}s new_violation_classes={} known_findings_hit={}",
         ctx.prop,
-        ctx.tier.as_str(),
+        ctx.label.as_str(),
         wall,
         new_violations,
         known_hits
